@@ -100,7 +100,7 @@ pub fn readers<S: Src, const N: usize>(s: &mut S) -> Verdict {
     vassert!(vec_is(&out, &w, wl), "copy_uncompressed_name: the expanded name");
     vassert!(Compress::raw_name_len_after_decompression(p, off) == wl, "raw_name_len_after_decompression");
     vassert!(Compress::raw_name_len(&p[off..]) == end - off, "raw_name_len: length of the name as written");
-    let mut t = [0u8; 1024];
+    let mut t = [0u8; 300];
     let tl = spec::name_text(p, off, &mut t, false);
     let txt = Compress::raw_name_to_str(p, off);
     vassert!(vec_is(&txt, &t, tl), "raw_name_to_str: dotted text of the expanded name");
